@@ -2,6 +2,7 @@
 import itertools
 import json
 import random
+import os
 import engine as E
 
 PROP = "C09"
@@ -51,10 +52,23 @@ def run(tier, seed, work, replay):
                                  env={"GORACE": "log_path=%s exitcode=0 halt_on_error=0" % rlog}, timeout=1800)
         evs = E.read_ndjson(epath)
         return evs, E.monitor(work, "KMUnsealSeq", "KMUnsealSeq.cfg", epath, cov)
-    evs, devs = execute(cpath, "all")
+    crash = None
+    try:
+        evs, devs = execute(cpath, "all")
+    except E.RuntimeCrash as c:
+        # the runtime aborted the daemon code (unsynchronised map access) during the concurrent injections
+        fr = [(os.path.basename(f), ln) for f, ln in c.frames if f.startswith("cmd/keymasterd/")]
+        if not fr:
+            raise E.Inconclusive("the harness crashed (%s) without a keymaster frame:\n%s" % (c.kind, c.dump))
+        crash = sorted(set(fr))[:6]
+        cov["runtime_abort"] = c.kind
+        # the sequential part still has to be judged: run it without the concurrent cases
+        seq = work.path("cases-seq.ndjson")
+        E.write_ndjson(seq, [x for x in cases if x["kind"] != "concurrent"])
+        evs, devs = execute(seq, "seq")
     import glob
     import re
-    races = []
+    races = [crash] if crash else []
     for f in glob.glob(rlog + ".*"):
         for rep in open(f).read().split("=================="):
             if "DATA RACE" in rep:
